@@ -5,6 +5,7 @@
   h2_send_headers() makes the peer see are the lower-cased response field names.
 -/
 import LtVerif.Model.H2Headers
+import LtVerif.Proofs.Hpack
 namespace LtVerif.H2Headers
 open LtVerif B Hpack
 
@@ -258,5 +259,100 @@ theorem repeated_fields (k : Bytes) (vs : List Bytes) (hk : k ≠ []) (hne : vs 
   have homit' : ¬ (hkeyGet k = 0 ∧ (k.headD 0 &&& 0xdf) = 88 ∧ omitHeader k = true) :=
     fun h => homit h.2
   simp only [homit', if_false, hname, hvals, List.append_nil]
+
+/-! ### SETTINGS_HEADER_TABLE_SIZE changes are announced to the peer's decoder -/
+
+theorem evict_evict (a b : Nat) (l : List Header) : evict a (evict b l) = evict (min a b) l := by
+  induction l generalizing a b with
+  | nil => simp [evict]
+  | cons h t ih =>
+    simp only [evict]
+    by_cases hb : entrySize h ≤ b
+    · simp only [hb, if_true, evict]
+      by_cases ha : entrySize h ≤ a
+      · have hm : entrySize h ≤ min a b := by omega
+        simp only [ha, hm, if_true, ih]
+        congr 2; omega
+      · have hm : ¬ entrySize h ≤ min a b := by omega
+        simp [ha, hm]
+    · have hm : ¬ entrySize h ≤ min a b := by omega
+      simp [hb, hm, evict]
+
+/-- encoder table after the peer's SETTINGS values -/
+def encAfter (t : Table) (vs : List Nat) : Table :=
+  vs.foldl (fun t v => t.setMaxCapacity (peerTableSize v)) t
+
+/-- invariant tying h2con's bookkeeping to lshpack's encoder table -/
+def GlueInv (t0 : Table) (g : EncGlue) (te : Table) : Prop :=
+  te.curMax = g.size ∧ tableSize te.dyn ≤ te.curMax ∧
+    (if g.pending then te.dyn = evict g.tszMin t0.dyn ∧ g.tszMin ≤ g.size
+     else te.dyn = t0.dyn ∧ g.size = t0.curMax)
+
+theorem glueInv_step (t0 : Table) (g : EncGlue) (te : Table) (v : Nat) (h : GlueInv t0 g te) :
+    GlueInv t0 (g.settings v) (te.setMaxCapacity (peerTableSize v)) := by
+  obtain ⟨hcur, hsz, hcase⟩ := h
+  unfold EncGlue.settings
+  by_cases heq : peerTableSize v = g.size
+  · simp only [heq, if_true]
+    have hdyn : (te.setMaxCapacity g.size).dyn = te.dyn := by
+      simp only [Table.setMaxCapacity]
+      exact evict_of_le _ _ (by omega)
+    refine ⟨rfl, ?_, ?_⟩
+    · rw [hdyn]; simpa [Table.setMaxCapacity, ← hcur] using hsz
+    · rw [hdyn]; exact hcase
+  · simp only [heq, if_false]
+    refine ⟨rfl, tableSize_evict_le _ _, ?_⟩
+    simp only [if_true]
+    by_cases hp : g.pending = true
+    · simp only [hp, if_true] at hcase
+      obtain ⟨hd, hle⟩ := hcase
+      simp only [hp, not_true_eq_false, false_or]
+      constructor
+      · simp only [Table.setMaxCapacity, hd, evict_evict]
+        by_cases hlt : peerTableSize v < g.tszMin
+        · simp only [hlt, if_true]; congr 1; omega
+        · simp only [hlt, if_false]; congr 1; omega
+      · by_cases hlt : peerTableSize v < g.tszMin
+        · simp [hlt]
+        · simp only [hlt, if_false]; omega
+    · have hp' : g.pending = false := by simpa using hp
+      simp only [hp', Bool.false_eq_true, if_false] at hcase
+      simp only [hp', Bool.false_eq_true, not_false_eq_true, true_or, if_true]
+      exact ⟨by simp [Table.setMaxCapacity, hcase.1], Nat.le_refl _⟩
+
+theorem glueInv_fold (t0 : Table) : ∀ (vs : List Nat) (g : EncGlue) (te : Table), GlueInv t0 g te →
+    GlueInv t0 (vs.foldl EncGlue.settings g) (vs.foldl (fun t v => t.setMaxCapacity (peerTableSize v)) te) := by
+  intro vs
+  induction vs with
+  | nil => intro g te h; exact h
+  | cons v rest ih => intro g te h; exact ih _ _ (glueInv_step t0 g te v h)
+
+/-- the updates lighttpd announces bring a conformant decoder's table to the
+    encoder's table: same entries, same size limit -/
+theorem settings_resize_sync (t0 : Table) (hwf : t0.WF) (vs : List Nat) :
+    let g := vs.foldl EncGlue.settings ({ size := t0.curMax } : EncGlue)
+    let te := encAfter t0 vs
+    let td := g.updates.foldl Table.updateMax t0
+    td.dyn = te.dyn ∧ td.curMax = te.curMax := by
+  have h0 : GlueInv t0 ({ size := t0.curMax } : EncGlue) t0 :=
+    ⟨rfl, hwf.size_le, by simp⟩
+  have h := glueInv_fold t0 vs _ _ h0
+  simp only [encAfter]
+  generalize vs.foldl EncGlue.settings ({ size := t0.curMax } : EncGlue) = g at h ⊢
+  generalize vs.foldl (fun t v => t.setMaxCapacity (peerTableSize v)) t0 = te at h ⊢
+  obtain ⟨hcur, _, hcase⟩ := h
+  unfold EncGlue.updates
+  by_cases hp : g.pending = true
+  · simp only [hp, if_true] at hcase ⊢
+    obtain ⟨hd, hle⟩ := hcase
+    by_cases hm : g.tszMin = g.size
+    · simp only [hm, if_true, List.foldl_cons, List.foldl_nil, Table.updateMax]
+      exact ⟨by rw [hd, hm], hcur.symm⟩
+    · simp only [hm, if_false, List.foldl_cons, List.foldl_nil, Table.updateMax, evict_evict]
+      refine ⟨?_, hcur.symm⟩
+      rw [hd]; congr 1; omega
+  · have hp' : g.pending = false := by simpa using hp
+    simp only [hp', Bool.false_eq_true, if_false, List.foldl_nil] at hcase ⊢
+    exact ⟨hcase.1.symm, by rw [hcur, hcase.2]⟩
 
 end LtVerif.H2Headers
